@@ -51,6 +51,10 @@ Section C04.
     0 < radicand <= atol8 NumR -> arc_point NumR NumTR P 0 <> start.
   Proof. exact (arc_point0_snapped start radius end_ rotation large sweep Hse Hrx Hry). Qed.
 
+  Theorem C04_point1_snapped_refuted :
+    0 < radicand <= atol8 NumR -> arc_point NumR NumTR P 1 <> end_.
+  Proof. exact (arc_point1_snapped start radius end_ rotation large sweep Hse Hrx Hry). Qed.
+
   (* every point(t) lies on the ellipse with the STORED centre, radii, rotation
      (u1transform maps that ellipse to the unit circle) — unconditional *)
   Theorem C04_on_ellipse : forall t,
@@ -179,6 +183,7 @@ Print Assumptions C04_point0_partial.
 Print Assumptions C04_point1_partial.
 Print Assumptions C04_point0_only_if_snap_inactive.
 Print Assumptions C04_point0_snapped_refuted.
+Print Assumptions C04_point1_snapped_refuted.
 Print Assumptions C04_on_ellipse.
 Print Assumptions C04_scale_minimal.
 Print Assumptions C04_scale_necessary.
